@@ -35,7 +35,7 @@ func (*c12World) Info() kernel.WorldInfo {
 			"against a reference funding model. distinct = distinct (response-kind sequence, fault kind+position, outcome class, #calls) histories; " +
 			"a history is non-trivial when the supplier was called at least once.",
 		Assumptions: []string{
-			"'estimated fee' is defined by the library's own public EstimateFeesPaid applied to the model's copy of the transaction (fee arithmetic itself is C11, not decided here)",
+			"'estimated fee' = floor(std bytes x std rate) + floor(data bytes x data rate) over the library's own size estimate (EstimateSizeWithTypes on the model's copy); the size estimate itself is C11's subject",
 			"fee quotes have positive byte denominators (as the property states)",
 			"nothing is asserted about the transaction's inputs on error paths (the statement only constrains outputs there)",
 		},
@@ -52,7 +52,7 @@ type c12Resp struct {
 	aux  uint64
 }
 
-var respNames = []string{"ample", "exact", "deficit-1", "1sat", "barely", "empty", "noutxo", "noutxo-wrapped", "error", "bad-txid", "bad-script", "nil-script", "cancel"}
+var respNames = []string{"ample", "exact", "deficit-1", "1sat", "barely", "empty", "noutxo", "noutxo-wrapped", "error", "bad-txid", "bad-script", "nil-script", "cancel", "noutxo+batch", "error+batch"}
 
 type c12Scenario struct {
 	stdSat, stdBytes, dataSat, dataBytes int
@@ -174,7 +174,7 @@ func genC12(c *kernel.RunCtx) *c12Scenario {
 		c.Begin("resp")
 		r := c12Resp{}
 		//               ample exact d-1 1sat barely empty noutxo wrapped error badtxid badscript nilscript cancel
-		r.kind = c.Pick(5, 8, 6, 5, 8, 4, 1, 1, 1, 1, 1, 1, 1)
+		r.kind = c.Pick(5, 8, 6, 5, 8, 4, 1, 1, 1, 1, 1, 1, 1, 1, 1)
 		r.n = 1 + c.Pick(5, 3, 2, 1, 1)
 		if c.Bool(1, 50) {
 			r.n = c.Range(250, 300) // one huge batch: crosses the input-count varint boundary at once
@@ -212,10 +212,14 @@ type c12Supplier struct {
 
 // modelDeficit is the reference definition: max(0, outputs + estimated fee - inputs).
 func (p *c12Supplier) modelDeficit() (uint64, error) {
-	fees, err := p.model.Clone().EstimateFeesPaid(p.fq)
+	// the estimate is the library's size estimate (107-byte dummy unlocking scripts for unsigned inputs),
+	// priced with the quote by exact integer arithmetic: floor(std bytes x rate) + floor(data bytes x rate)
+	sz, err := p.model.Clone().EstimateSizeWithTypes()
 	if err != nil {
 		return 0, err
 	}
+	s := p.s
+	fees := struct{ TotalFeePaid uint64 }{sz.TotalStdBytes*uint64(s.stdSat)/uint64(s.stdBytes) + sz.TotalDataBytes*uint64(s.dataSat)/uint64(s.dataBytes)}
 	var in, out uint64
 	for _, i := range p.model.Inputs {
 		in += i.PreviousTxSatoshis
@@ -310,6 +314,14 @@ func (p *c12Supplier) next(ctx context.Context, deficit uint64) ([]*bt.UTXO, err
 		p.cancel()
 		p.expect, p.after = "cancel", true
 		return nil, ctx.Err()
+	case 13:
+		// a supplier that hands over its last UTXOs together with the exhaustion signal: exhaustion was
+		// reported while a deficit remained, so the outcome is insufficient funds whatever Fund does with them
+		p.expect, p.after = "insufficient", true
+		return []*bt.UTXO{p.mkUTXO(md+5000, 0)}, bt.ErrNoUTXO
+	case 14:
+		p.expect, p.after = "error", true
+		return []*bt.UTXO{p.mkUTXO(md+5000, 0)}, fmt.Errorf("rpc call %d: %w", idx, errC12Injected)
 	default:
 		total = md + r.aux%1000
 	}
